@@ -8,6 +8,7 @@ verus! {
 //@file CTX rustemo/src/context.rs
 //@file LEX rustemo/src/lexer.rs
 //@file LRC rustemo/src/lr/context.rs
+//@file GSS rustemo/src/glr/gss.rs
 
 //@struct POS LineColumn derive=Clone,Copy
 //@end
@@ -96,6 +97,50 @@ impl<'i, I: Input + ?Sized, S, TK> LRContext<'i, I, S, TK> {
 //@  |     open spec fn v_span(&self) -> SourceSpan { self.f_span() }
 //@  |     open spec fn v_layout_ahead(&self) -> Option<&'i I> { self.f_layout_ahead() }
 //@  |     open spec fn v_token_ahead(&self) -> Option<Token<'i, I, TK>> { self.f_token_ahead() }
+//@  fn state
+//@  fn set_state
+//@  fn position
+//@  fn set_position
+//@  fn span
+//@  fn set_span
+//@  fn token_ahead
+//@  fn set_token_ahead
+//@  fn layout_ahead
+//@  fn set_layout_ahead
+//@end
+
+// ---- the GLR context: GssHead (rustemo/src/glr/gss.rs) implements the same Context contract -------------------------
+//@struct GSS GssHead
+//@end
+
+impl<'i, I: Input + ?Sized, S, TK> GssHead<'i, I, S, TK> {
+    pub closed spec fn g_frontier(&self) -> usize { self.frontier }
+    pub closed spec fn g_state(&self) -> S { self.state }
+    pub closed spec fn g_position(&self) -> Position { self.position }
+    pub closed spec fn g_span(&self) -> SourceSpan { self.span }
+    pub closed spec fn g_layout_ahead(&self) -> Option<&'i I> { self.layout_ahead }
+    pub closed spec fn g_token_ahead(&self) -> Option<Token<'i, I, TK>> { self.token_ahead }
+}
+
+//@impl GSS /^impl < 'i , I , S , TK > GssHead < 'i , I , S , TK >/
+//@  fn new ret=r
+//@  |         ensures r.g_state() == state, r.g_frontier() == frontier, r.g_position() == position, r.g_span() == span, // [C13]
+//@  |             r.g_layout_ahead() == layout_ahead, r.g_token_ahead() == token_ahead,
+//@  fn with_tok_state ret=r
+//@  |         ensures r.g_state() == state, r.g_token_ahead() == Some(token_ahead), r.g_frontier() == self.g_frontier(),
+//@  |             r.g_position() == self.g_position(), r.g_span() == self.g_span(), r.g_layout_ahead() == self.g_layout_ahead(), // [C13]
+//@  fn with_tok ret=r
+//@  |         ensures r.g_state() == self.g_state(), r.g_token_ahead() == Some(token_ahead), r.g_frontier() == self.g_frontier(),
+//@  |             r.g_position() == self.g_position(), r.g_span() == self.g_span(), r.g_layout_ahead() == self.g_layout_ahead(), // [C13]
+//@end
+
+//@impl GSS /^impl < 'i , S , I , TK > Context < 'i , I , S , TK > for GssHead < 'i , I , S , TK >/
+//@  raw
+//@  |     open spec fn v_state(&self) -> S { self.g_state() }
+//@  |     open spec fn v_position(&self) -> Position { self.g_position() }
+//@  |     open spec fn v_span(&self) -> SourceSpan { self.g_span() }
+//@  |     open spec fn v_layout_ahead(&self) -> Option<&'i I> { self.g_layout_ahead() }
+//@  |     open spec fn v_token_ahead(&self) -> Option<Token<'i, I, TK>> { self.g_token_ahead() }
 //@  fn state
 //@  fn set_state
 //@  fn position
